@@ -232,7 +232,7 @@ def run_check(mod, tier: str, seed: int) -> int:
                 agg.harness.append((-1, {"error": "pinned input failed to run", "entry": entry["id"]}))
                 continue
             if rr.get("verdict") == "violation":
-                if entry.get("status") == "open":
+                if entry.get("status") == "open" and entry.get("class") in (None, rr["violation"].get("class")):
                     kf_lines.append(f"KNOWN-FINDING: property={mod.ID} {entry['id']}: {entry['what']}")
                 else:
                     pinned_viol.append((key, rr.get("spec") or spec, rr))
